@@ -58,6 +58,18 @@ DUP_DEFS = {
 }
 
 
+# the same qualified name twice, the dead code in the LAST definition (the one Python keeps, the one the name-keyed registry keeps too: F3 does not
+# excuse these) and in a function nested in it
+LAST_DEFS = {
+    "redefinition_last": ("def target(a, b, c):\n    return a\n\ndef target(a, b, c):\n{BODY}\n", 1, "target"),
+    "property_setter_last": ("class Host:\n    @property\n    def target(self):\n        return self._v\n\n    @target.setter\n    def target(self, v):\n{BODY}\n", 2, "Host.target"),
+    "overload_impl": ("from typing import overload\n\n@overload\ndef target(a: int) -> int: ...\n@overload\ndef target(a: str) -> str: ...\ndef target(a):\n{BODY}\n", 1, "target"),
+    "conditional_else_def": ("import sys\nif sys.argv:\n    def target(a, b, c):\n        return a\nelse:\n    def target(a, b, c):\n{BODY}\n", 2, "target"),
+    "nested_in_redefinition": ("def target(a, b, c):\n    return a\n\ndef target(a, b, c):\n    def helper(x):\n{BODY}\n    return helper\n", 2, "target.helper"),
+    "third_definition": ("def target(a):\n    return a\n\ndef target(a):\n    return a + 1\n\ndef target(a):\n{BODY}\n", 1, "target"),
+}
+
+
 def cell_source(dk, ek, tk):
     prefix, ind, qn = DEFS[dk]
     I = "    " * ind
@@ -160,6 +172,9 @@ def run(tier, seed, replay=None):
         for name, (tpl, ind, qn) in DUP_DEFS.items():
             I = "    " * ind
             cells.append((name, "plain", "return", tpl.replace("{BODY}", I + "return 1\n" + I + "marker = 12345"), qn))
+        for name, (tpl, ind, qn) in LAST_DEFS.items():
+            I = "    " * ind
+            cells.append((name, "plain", "return", tpl.replace("{BODY}", I + "return 1\n" + I + "marker = 12345"), qn))
         # a function whose NAME is the key pyscn uses for the module-level pseudo function
         cells.append(("named___main__", "plain", "return", "def __main__(a, b, c):\n    return a\n    marker = 12345\n\nprint(__main__(1, 2, 3))\n", "__main__"))
         # gap variants: more than 5 / more than 10 lines between the terminator and the dead statement
@@ -201,7 +216,7 @@ def run(tier, seed, replay=None):
         "distinct_nontrivial": len(nontrivial) + hist["cells"],
         "rule": "in process: all function skeletons with ≤3 nodes + random skeletons (depth ≤4, ≤60 nodes), every def of every generated module; "
                 "CLI: the full matrix definition kind (%d) × enclosing construct (%d) × terminator (%d, incl. exhaustive if/else and if/elif/elif/else) "
-                "+ duplicate qualified names + gaps of 5/6/11/25 lines; non-trivial = definition with ≥1 structurally dead statement" % (len(DEFS), len(ENCL), len(TERMS)),
+                "+ duplicate qualified names (dead code in the first / in the last definition, overload stubs, nested in a redefinition) + gaps of 5/6/11/25 lines; non-trivial = definition with ≥1 structurally dead statement" % (len(DEFS), len(ENCL), len(TERMS)),
         "exhaustive": True,
         "exhaustive_note": "the cell matrix is run completely on every run; skeletons complete for ≤3 nodes",
         "samples": [{"cell": list(cells[7][:3]), "source": cells[7][3]}],
